@@ -6,6 +6,7 @@ well-formed base requests.  A realisation is a `Msg`:
     cls    the model's class ("GoodKA", "GoodClose", "BadLine", "BadHeader", "BadCL",
            "BadChunk", "BadEscape", "Nul", "TlsHello", "Truncate", "Rest")
     sub    which mutant of the class (named after the parser branch it aims at)
+    cls    ... "TlsCut" = a proper prefix of a TLS / SSLv2 client hello (wf "partial")
     wf     "good"     an unmodified base request, delivered completely
            "hostile"  syntactically a well-formed HTTP/1.x request (RFC 7230 grammar)
                       that is unusual / oversized / not canonical: the property does
@@ -350,8 +351,19 @@ SUBS = {
     ],
 }
 
+def tls_bases():
+    """Complete TLS / SSLv2 client hellos (fixed bytes) for the class "TlsCut"."""
+    r = random.Random(20140)
+    return [('sslv2', _sslv2_hello(r)), ('tls12', _tls_record(r, 1)), ('tls13', _tls_record(r, 3))]
+
+
+def tls_truncations():
+    """Every proper prefix of every hello of tls_bases(): (name, hello, offset)."""
+    return [(n, d, off) for n, d in tls_bases() for off in range(1, len(d))]
+
+
 BAD_CLASSES = ['BadLine', 'BadHeader', 'BadCL', 'BadChunk', 'BadEscape', 'Nul', 'TlsHello']
-CLASSES = ['GoodKA', 'GoodClose'] + BAD_CLASSES + ['Truncate', 'Rest']
+CLASSES = ['GoodKA', 'GoodClose'] + BAD_CLASSES + ['TlsCut', 'Truncate', 'Rest']
 
 
 def n_subs(cls):
@@ -378,6 +390,12 @@ def realise(cls, rnd, sub=None, base=None, offset=None):
         d = b.data
         off = offset if offset is not None else rnd.randrange(1, len(d))
         return Msg(cls, '%s@%d' % (b.name, off), 'partial', d[:off], d[off:], b.name)
+    if cls == 'TlsCut':
+        bases = tls_bases()
+        n, d = base or (bases[sub % len(bases)] if isinstance(sub, int) else _pick(rnd, bases))
+        # the first bytes are where the SSL detection of _on_read looks: cut there half of the time
+        off = offset if offset is not None else (rnd.randrange(1, 4) if rnd.random() < 0.5 else rnd.randrange(1, len(d)))
+        return Msg(cls, '%s@%d' % (n, off), 'partial', d[:off], d[off:], n)
     if cls == 'Rest':
         raise ValueError('Rest is realised from the preceding Truncate')
     table = SUBS[cls]
